@@ -9,6 +9,7 @@ import Zlink.Model.DriverNotif
 import Zlink.Model.DriverUnix
 import Zlink.Model.DriverAlias
 import Zlink.Model.DriverProxy
+import Zlink.Model.DriverCg
 /-! `zmodel`: reads case lines on stdin, prints for each the model's observation and the Lean
     oracle's verdict on the implementation's observation. -/
 
@@ -24,6 +25,13 @@ def handleLine (line : String) : String :=
   | "proxy" :: _ => DriverProxy.handle ts
   | "proxyreply" :: _ => DriverProxy.handle ts
   | "proxystream" :: _ => DriverProxy.handle ts
+  | "cgdecl" :: _ => DriverCg.handle ts
+  | "cgcall" :: _ => DriverCg.handle ts
+  | "cgreply" :: _ => DriverCg.handle ts
+  | "cgerr" :: _ => DriverCg.handle ts
+  | "cgtype" :: _ => DriverCg.handle ts
+  | "cgenc" :: _ => DriverCg.handle ts
+  | "case" :: _ => DriverCg.handle ts
   | "alias" :: _ => DriverAlias.handle ts
   | "unix" :: _ => DriverUnix.handle ts
   | "notif" :: _ => DriverNotif.handle ts
